@@ -338,19 +338,19 @@ Proof. intros E. unfold Suf. rewrite E. apply Sufd_refl. Qed.
 Lemma Suf_k_same s x x' : Suf s x -> dr x' = dr x -> Suf s x'.
 Proof. intros H E. unfold Suf in *. rewrite E. exact H. Qed.
 
-Lemma Suf_is_awaiting s na : Suf s (fst (is_awaiting_session s na)).
-Proof. apply Suf_same. unfold is_awaiting_session. destruct (sess_get (hs s) na) as [h se]. destruct se; reflexivity. Qed.
+Lemma Suf_is_awaiting c s na : Suf s (fst (is_awaiting_session c s na)).
+Proof. apply Suf_same. unfold is_awaiting_session. destruct (sess_get c (hs s) na) as [h se]. destruct se; reflexivity. Qed.
 
 Lemma Suf_send_request c s ct ext rid body now : Suf s (fst (send_request c s ct ext rid body now)).
 Proof.
   unfold send_request. destruct (existsb (N.eqb (c_addr ct)) (cfg_listen c)); [apply Suf_refl|].
   set (na := c_naddr ct).
-  assert (Ha : Suf s (fst (if has_challenge (hs s) na then (s, true) else is_awaiting_session s na))).
+  assert (Ha : Suf s (fst (if has_challenge (hs s) na then (s, true) else is_awaiting_session c s na))).
   { destruct (has_challenge (hs s) na); [apply Suf_refl|apply Suf_is_awaiting]. }
-  destruct (if has_challenge (hs s) na then (s, true) else is_awaiting_session s na) as [s1 awaiting].
+  destruct (if has_challenge (hs s) na then (s, true) else is_awaiting_session c s na) as [s1 awaiting].
   cbn [fst] in Ha. destruct awaiting; cbn [fst].
   - eapply Suf_k_same; [exact Ha|reflexivity].
-  - destruct (sess_get (hs s1) na) as [h2 se]. destruct se as [se|].
+  - destruct (sess_get c (hs s1) na) as [h2 se]. destruct se as [se|].
     + rewrite encrypt_message_eq. cbn [fst snd]. eapply Suf_trans; [exact Ha|]. apply Sufd_pop.
     + pose proof (Sufd_pop (dr (with_hs s1 h2))) as X.
       destruct (pop_pk (dr (with_hs s1 h2))) as [[[[cn r] aad] e0] d']. cbn [fst snd] in *.
@@ -374,8 +374,10 @@ Proof. intros Hf. induction l as [|q t IH]; intros s0; cbn [fold_left]; [reflexi
 Lemma fail_session_dr c s na err rm : dr (fail_session c s na err rm) = dr s.
 Proof.
   unfold fail_session.
-  set (s1 := if rm then with_hs s (sess_remove (hs s) na) else s).
-  assert (E1 : dr s1 = dr s) by (unfold s1; destruct rm; reflexivity). clearbody s1.
+  set (s1 := if rm then let s0 := remove_expired_sessions c s in with_hs s0 (sess_remove (hs s0) na) else s).
+  assert (E1 : dr s1 = dr s).
+  { unfold s1; destruct rm; [|reflexivity]. cbv zeta. cbn [with_hs dr]. apply remove_expired_sessions_dr. }
+  clearbody s1.
   set (s2 := match alist_get na (pending (hs s1)) with Some l => _ | None => s1 end).
   assert (E2 : dr s2 = dr s).
   { unfold s2. destruct (alist_get na (pending (hs s1))) as [l|]; [|exact E1].
@@ -409,7 +411,8 @@ Qed.
 
 Lemma Suf_replay c s na skip now : Suf s (replay_active_requests c s na skip now).
 Proof.
-  unfold replay_active_requests. destruct (sess_get (hs s) na) as [h1 se]. destruct se as [se0|]; [|apply Suf_refl].
+  unfold replay_active_requests. destruct (sess_get c (hs s) na) as [h1 se].
+  destruct se as [se0|]; [|apply Suf_same; reflexivity].
   set (reqs := filter _ _).
   pose proof (replay_fold_dr c na reqs (with_hs s h1) se0 []) as Hf. cbn zeta in Hf.
   destruct (fold_left _ reqs (with_hs s h1, se0, [])) as [[s2 se2] pkts]. cbn [fst snd] in Hf.
@@ -420,7 +423,10 @@ Qed.
 
 Lemma Suf_new_session c s na se skip now : Suf s (new_session c s na se skip now).
 Proof.
-  unfold new_session. destruct (sess_get (hs s) na) as [h1 cur]. destruct cur as [cs|].
+  unfold new_session.
+  eapply Suf_trans; [apply (Suf_same s (remove_expired_sessions c s)); apply remove_expired_sessions_dr|].
+  generalize (remove_expired_sessions c s). clear s. intros s.
+  destruct (sess_get c (hs s) na) as [h1 cur]. destruct cur as [cs|].
   - match goal with |- context [replay_active_requests c ?s1 na skip now] =>
       assert (X : Suf s (replay_active_requests c s1 na skip now)) end.
     { eapply Suf_trans; [|apply Suf_replay]. apply Suf_same. reflexivity. }
@@ -436,7 +442,7 @@ Qed.
 
 Lemma Suf_send_response c s na rid rb : Suf s (send_response c s na rid rb).
 Proof.
-  unfold send_response. destruct (sess_get (hs s) na) as [h1 se]. destruct se as [se|]; [|apply Suf_refl].
+  unfold send_response. destruct (sess_get c (hs s) na) as [h1 se]. destruct se as [se|]; [|apply Suf_same; reflexivity].
   rewrite encrypt_message_eq. apply Sufd_pop.
 Qed.
 Lemma Suf_send_challenge c s na n known now : Suf s (send_challenge c s na n known now).
@@ -453,7 +459,7 @@ Proof.
 Qed.
 Lemma handle_message_dr c s na n aad ct now : dr (handle_message c s na n aad ct now) = dr s.
 Proof.
-  unfold handle_message. destruct (sess_get (hs s) na) as [h1 se]. destruct se as [se|]; [|reflexivity].
+  unfold handle_message. destruct (sess_get c (hs s) na) as [h1 se]. destruct se as [se|]; [|reflexivity].
   destruct (decrypt_message se n aad ct) as [se' m].
   destruct m as [[rid body|rid rb|j]|]; try reflexivity.
   - destruct (s_await se') as [arid|]; [|rewrite handle_response_dr; reflexivity].
@@ -494,7 +500,7 @@ Proof.
   destruct (ar_remove_by_nonce (hs s) n) as [h1 found].
   destruct found as [[na r]|]; [|apply Suf_same; reflexivity].
   destruct (negb (N.eqb (snd na) src)); [apply Suf_same; reflexivity|].
-  destruct (rc_hs_sent r).
+  destruct (rc_hs_sent r || c_ed (rc_contact r)).
   { apply Suf_same. rewrite fail_request_dr. destruct (fix_d6 c); reflexivity. }
   pose proof (Sufd_pop (dr (with_hs s h1))) as X.
   destruct (pop_pk (dr (with_hs s h1))) as [[[[cn rr] aad] eph] d']. cbn [snd with_hs dr] in X.
@@ -529,9 +535,9 @@ Proof.
   assert (FR : forall d, Suf s (match group_of d (nmap (hs s)) with
       | _ :: _ :: _ =>
         let (rev_order, d') := pop_rev (dr s) in
-        fire_group c {| hs := hs s; dr := d'; outs := outs s |}
+        fire_group (with_clock c (fire_time c d now)) {| hs := hs s; dr := d'; outs := outs s |}
           (if rev_order then rev (group_of d (nmap (hs s))) else group_of d (nmap (hs s))) d (fire_time c d now)
-      | _ => fire_group c s (group_of d (nmap (hs s))) d (fire_time c d now)
+      | _ => fire_group (with_clock c (fire_time c d now)) s (group_of d (nmap (hs s))) d (fire_time c d now)
       end)).
   { intros d. destruct (group_of d (nmap (hs s))) as [|x [|y g]]; try apply Suf_fire_group.
     pose proof (Sufd_pop_rev (dr s)) as X. destruct (pop_rev (dr s)) as [ro d']. cbn [snd] in X.
@@ -625,13 +631,20 @@ Proof.
   apply JI_dr; [apply Sufd_same_pk; exact E|exact W].
 Qed.
 
-Lemma active_sess_get4 h na : active (fst (sess_get h na)) = active h.
-Proof. unfold sess_get. destruct (alist_get na (sessions h)); reflexivity. Qed.
+Lemma active_sess_get4 c h na : active (fst (sess_get c h na)) = active h.
+Proof. apply (sess_get_frame c h na). Qed.
 
-Lemma J_is_awaiting c fut H0 ex s na : J c fut H0 ex s -> J c fut H0 ex (fst (is_awaiting_session s na)).
+Lemma J_is_awaiting c fut H0 ex s na : J c fut H0 ex s -> J c fut H0 ex (fst (is_awaiting_session c s na)).
 Proof.
-  intros W. unfold is_awaiting_session. pose proof (active_sess_get4 (hs s) na) as E.
-  destruct (sess_get (hs s) na) as [h se]. cbn [fst] in E. destruct se; cbn [fst]; apply J_frame; assumption.
+  intros W. unfold is_awaiting_session. pose proof (active_sess_get4 c (hs s) na) as E.
+  destruct (sess_get c (hs s) na) as [h se]. cbn [fst] in E. destruct se; cbn [fst]; apply J_frame; assumption.
+Qed.
+
+(* Handler::remove_expired_sessions: the request lists are untouched, one event *)
+Lemma J_remove_expired c fut H0 ex s : J c fut H0 ex s -> J c fut H0 ex (remove_expired_sessions c s).
+Proof.
+  intros W. rewrite remove_expired_sessions_eq. destruct (fst (drop_expired c (sessions (hs s)))) as [|k ks]; [exact W|].
+  apply J_emit_event. apply J_frame; [reflexivity|exact W].
 Qed.
 
 Lemma pop_pk_pool d q d' : pop_pk d = (q, d') -> (d_pk d = [] /\ d' = d) \/ pool d = qnonce q :: pool d'.
@@ -648,13 +661,13 @@ Proof.
   apply J_cases; [apply Suf_send_request|]. intros W. unfold send_request.
   destruct (existsb (N.eqb (c_addr ct)) (cfg_listen c)); [right; exact W|].
   set (na := c_naddr ct).
-  assert (Ha : J c fut H0 ex (fst (if has_challenge (hs s) na then (s, true) else is_awaiting_session s na))).
+  assert (Ha : J c fut H0 ex (fst (if has_challenge (hs s) na then (s, true) else is_awaiting_session c s na))).
   { destruct (has_challenge (hs s) na); [right; exact W|apply J_is_awaiting; right; exact W]. }
-  destruct (if has_challenge (hs s) na then (s, true) else is_awaiting_session s na) as [s1 awaiting].
+  destruct (if has_challenge (hs s) na then (s, true) else is_awaiting_session c s na) as [s1 awaiting].
   cbn [fst] in Ha. destruct awaiting; cbn [fst].
   - apply J_frame; [|exact Ha]. cbn [hs with_hs]. unfold push_pending. destruct (alist_get na (pending (hs s1))); reflexivity.
-  - pose proof (active_sess_get4 (hs s1) na) as Eg.
-    destruct (sess_get (hs s1) na) as [h2 se]. cbn [fst] in Eg.
+  - pose proof (active_sess_get4 c (hs s1) na) as Eg.
+    destruct (sess_get c (hs s1) na) as [h2 se]. cbn [fst] in Eg.
     assert (Hg : J c fut H0 ex (with_hs s1 h2)) by (apply J_frame; assumption).
     destruct se as [se|].
     + rewrite encrypt_message_eq. cbn [fst snd].
@@ -703,8 +716,9 @@ Lemma J_fail_session c fut H0 ex s na err rm :
   J c fut H0 ex s -> J c fut H0 ex (fail_session c s na err rm).
 Proof.
   intros W. unfold fail_session.
-  set (s1 := if rm then with_hs s (sess_remove (hs s) na) else s).
-  assert (W1 : J c fut H0 ex s1). { unfold s1. destruct rm; [apply J_frame; [reflexivity|exact W]|exact W]. }
+  set (s1 := if rm then let s0 := remove_expired_sessions c s in with_hs s0 (sess_remove (hs s0) na) else s).
+  assert (W1 : J c fut H0 ex s1).
+  { unfold s1. destruct rm; [|exact W]. cbv zeta. apply J_frame; [reflexivity|apply J_remove_expired; exact W]. }
   clearbody s1.
   set (s2 := match alist_get na (pending (hs s1)) with Some l => _ | None => s1 end).
   assert (W2 : J c fut H0 ex s2).
@@ -740,8 +754,8 @@ Lemma J_send_response c fut H0 ex s na rid rb :
   J c fut H0 ex s -> J c fut H0 ex (send_response c s na rid rb).
 Proof.
   apply J_cases; [apply Suf_send_response|]. intros W. right. unfold send_response.
-  pose proof (active_sess_get4 (hs s) na) as Eg.
-  destruct (sess_get (hs s) na) as [h1 se]. cbn [fst] in Eg. destruct se as [se|]; [|exact W].
+  pose proof (active_sess_get4 c (hs s) na) as Eg.
+  destruct (sess_get c (hs s) na) as [h1 se]. cbn [fst] in Eg. destruct se as [se|]; [|apply JI_frame; assumption].
   rewrite encrypt_message_eq. apply JI_send_none; [reflexivity|]. apply JI_frame; [reflexivity|].
   apply (JI_dr c fut H0 ex (with_hs s h1)); [apply Sufd_pop|]. apply JI_frame; assumption.
 Qed.
@@ -794,9 +808,9 @@ Lemma J_handle_message c fut H0 ex s na n aad ct now :
   J c fut H0 ex s -> J c fut H0 ex (handle_message c s na n aad ct now).
 Proof.
   intros W. unfold handle_message.
-  pose proof (active_sess_get4 (hs s) na) as Eg.
-  destruct (sess_get (hs s) na) as [h1 se]. cbn [fst] in Eg.
-  destruct se as [se|]; [|apply J_emit_event; exact W].
+  pose proof (active_sess_get4 c (hs s) na) as Eg.
+  destruct (sess_get c (hs s) na) as [h1 se]. cbn [fst] in Eg.
+  destruct se as [se|]; [|apply J_emit_event; apply J_frame; assumption].
   destruct (decrypt_message se n aad ct) as [se' m].
   set (s2 := with_hs (with_hs s h1) (sess_put (hs (with_hs s h1)) na se')).
   assert (W2 : J c fut H0 ex s2).
@@ -812,7 +826,7 @@ Proof.
     { unfold s3.
       assert (W3 : J c fut H0 ex (with_hs s2 (sess_put (hs s2) na
                    {| s_enc := s_enc se'; s_dec := s_dec se'; s_old := s_old se'; s_await := None;
-                      s_counter := s_counter se' |}))).
+                      s_counter := s_counter se'; s_used := s_used se' |}))).
       { apply J_frame; [reflexivity|exact W2]. }
       destruct (fix_d2b c); [|exact W3].
       match goal with |- context [ar_remove_request ?h na rid] =>
@@ -849,9 +863,9 @@ Lemma J_replay c fut H0 ex s na skip now :
   J c fut H0 ex s -> J c fut H0 ex (replay_active_requests c s na skip now).
 Proof.
   intros W. unfold replay_active_requests.
-  pose proof (active_sess_get4 (hs s) na) as Eg.
-  destruct (sess_get (hs s) na) as [h1 se]. cbn [fst] in Eg.
-  destruct se as [se0|]; [|exact W].
+  pose proof (active_sess_get4 c (hs s) na) as Eg.
+  destruct (sess_get c (hs s) na) as [h1 se]. cbn [fst] in Eg.
+  destruct se as [se0|]; [|apply J_frame; assumption].
   set (reqs := filter _ _).
   pose proof (replay_fold_dr c na reqs (with_hs s h1) se0 []) as Hf. cbn zeta in Hf.
   pose proof (replay_fold c na reqs (with_hs s h1) se0 []) as Hf2. cbn zeta in Hf2.
@@ -869,8 +883,9 @@ Lemma J_new_session c fut H0 ex s na se skip now :
   J c fut H0 ex s -> J c fut H0 ex (new_session c s na se skip now).
 Proof.
   intros W. unfold new_session.
-  pose proof (active_sess_get4 (hs s) na) as Eg.
-  destruct (sess_get (hs s) na) as [h1 cur]. cbn [fst] in Eg.
+  apply J_remove_expired in W. revert W. generalize (remove_expired_sessions c s). clear s. intros s W.
+  pose proof (active_sess_get4 c (hs s) na) as Eg.
+  destruct (sess_get c (hs s) na) as [h1 cur]. cbn [fst] in Eg.
   destruct cur as [cs|].
   - match goal with |- context [replay_active_requests c ?s1 na skip now] =>
       assert (X : J c fut H0 ex (replay_active_requests c s1 na skip now)) end.
@@ -920,7 +935,7 @@ Proof.
   destruct found as [[na r]|]; [|exact Ht].
   destruct (negb (N.eqb (snd na) src)).
   { apply (J_insert c fut H0 r ex (with_hs s h1) c na now). exact Ht. }
-  destruct (rc_hs_sent r).
+  destruct (rc_hs_sent r || c_ed (rc_contact r)).
   { apply J_fail_request. destruct (fix_d6 c); [apply J_remove_expected|]; exact Ht. }
   pose proof (Sufd_pop (dr (with_hs s h1))) as Xp.
   destruct (pop_pk (dr (with_hs s h1))) as [[[[cn rr] aad] eph] d']. cbn [snd] in Xp.
@@ -980,26 +995,38 @@ Proof.
   destruct (N.eqb d' d); [apply J_fire_request; exact W|exact W].
 Qed.
 
+(* the invariant does not look at the clock of the environment *)
+Lemma J_clock c t fut H0 ex s : J (with_clock c t) fut H0 ex s <-> J c fut H0 ex s.
+Proof.
+  split; (intros [U|[A1 A2 A3 A4 A5 A6]]; [left; exact U|right; split; assumption]).
+Qed.
+
 Lemma J_fire_due c fut H0 ex now fuel : forall s,
   J c fut H0 ex s -> J c fut H0 ex (fire_due c s now fuel).
 Proof.
   induction fuel as [|f IH]; intros s W; cbn [fire_due]; [exact W|].
+  assert (FG : forall d g s', J c fut H0 ex s' ->
+            J c fut H0 ex (fire_group (with_clock c (fire_time c d now)) s' g d (fire_time c d now))).
+  { intros d g s' W'. apply (J_clock c (fire_time c d now)). apply J_fire_group. apply J_clock. exact W'. }
   assert (FR : forall d, J c fut H0 ex (match group_of d (nmap (hs s)) with
       | _ :: _ :: _ =>
         let (rev_order, d') := pop_rev (dr s) in
-        fire_group c {| hs := hs s; dr := d'; outs := outs s |}
+        fire_group (with_clock c (fire_time c d now)) {| hs := hs s; dr := d'; outs := outs s |}
           (if rev_order then rev (group_of d (nmap (hs s))) else group_of d (nmap (hs s))) d (fire_time c d now)
-      | _ => fire_group c s (group_of d (nmap (hs s))) d (fire_time c d now)
+      | _ => fire_group (with_clock c (fire_time c d now)) s (group_of d (nmap (hs s))) d (fire_time c d now)
       end)).
-  { intros d. destruct (group_of d (nmap (hs s))) as [|x [|y g]]; try (apply J_fire_group; exact W).
+  { intros d. destruct (group_of d (nmap (hs s))) as [|x [|y g]]; try (apply FG; exact W).
     assert (X : d_pk (snd (pop_rev (dr s))) = d_pk (dr s)) by (unfold pop_rev; destruct (d_rev (dr s)); reflexivity).
-    destruct (pop_rev (dr s)) as [ro d']. cbn [snd] in X. apply J_fire_group. apply J_dr_same; assumption. }
+    destruct (pop_rev (dr s)) as [ro d']. cbn [snd] in X. apply FG. apply J_dr_same; assumption. }
+  assert (FC : forall cna cd, J c fut H0 ex
+            (fire_challenge (with_clock c (fire_time c cd now)) s cna (fire_time c cd now))).
+  { intros cna cd. apply (J_clock c (fire_time c cd now)). apply J_fire_challenge. apply J_clock. exact W. }
   destruct (min_deadline_nmap (nmap (hs s)) None) as [[[rn ra] rd]|];
   destruct (min_deadline_ch (challenges (hs s)) None) as [[[cna cc] cd]|].
   - destruct (N.ltb rd now && (negb (N.ltb cd now) || N.leb rd cd)); [apply IH; apply FR|].
-    destruct (N.ltb cd now); [apply IH; apply J_fire_challenge; exact W|exact W].
+    destruct (N.ltb cd now); [apply IH; apply FC|exact W].
   - destruct (N.ltb rd now); [apply IH; apply FR|exact W].
-  - destruct (N.ltb cd now); [apply IH; apply J_fire_challenge; exact W|exact W].
+  - destruct (N.ltb cd now); [apply IH; apply FC|exact W].
   - exact W.
 Qed.
 
@@ -1024,12 +1051,13 @@ Qed.
 Local Transparent tick.
 Lemma tick_J c fut H0 h now d :
   J c fut H0 [] {| hs := h; dr := d; outs := [] |} -> J c fut H0 [] (tick c h now d).
-Proof. unfold tick. apply J_fire_due. Qed.
+Proof. intros W. unfold tick. apply (J_clock c now). apply J_fire_due. apply J_clock. exact W. Qed.
 Global Opaque tick.
 
-(* the state of the step monad at the end of a step: its draws are what the step left over *)
+(* the state of the step monad at the end of a step: its draws are what the step left over (the step
+   runs with the clock of the environment set to its time) *)
 Definition step_end (c : config) (h : hstate) (e : event) (now : N) (d : draws) : st :=
-  dispatch c (tick c h now d) e now.
+  dispatch (with_clock c now) (tick c h now d) e now.
 
 (* no step exhausts the draws it is given (at least one quadruple is left over) *)
 Fixpoint draws_suffice (c : config) (h : hstate) (evs : list (event * N * draws)) : Prop :=
@@ -1051,7 +1079,9 @@ Proof.
   intros W NE. rewrite step_eq. cbn [fst snd]. fold (step_end c h e now d) in *.
   assert (W0 : J c fut hist [] {| hs := h; dr := d; outs := [] |}).
   { right. unfold JI. cbn [hs dr outs]. rewrite app_nil_r. exact W. }
-  pose proof (J_dispatch c fut hist (tick c h now d) e now (tick_J c fut hist h now d W0)) as W1.
+  pose proof (J_dispatch (with_clock c now) fut hist (tick c h now d) e now
+                (proj2 (J_clock c now _ _ _ _) (tick_J c fut hist h now d W0))) as W1.
+  apply J_clock in W1.
   fold (step_end c h e now d) in W1. destruct W1 as [U|W1]; [contradiction|].
   unfold JS. eapply JIP_pool. exact W1.
 Qed.
